@@ -294,6 +294,61 @@ def other_charsets(ctx):
     return n
 
 
+def through_file_cases(ctx):
+    """Reading them from a track: a meta message of every type - plain, frozen, and as a user's subclass - sits in a
+    track of a file saved under the file's charset (default and others), after another message, after an end_of_track in
+    mid-track that carries a delta; the file is saved, read back with the same charset, and the message that comes back
+    equals the original (its delta grown by what the removed end_of_track carried)."""
+    import io
+    import mido
+    from mido.frozen import freeze_message
+    from .. import genfile
+    rng = random.Random(f'{ctx.seed}:through-file')
+    n = 0
+    for cs in ('latin1', 'utf-8', 'cp1252', 'utf-16-le', 'shift_jis'):
+        for t in list(rmeta.SPECS):
+            if t == 'end_of_track':
+                continue
+            for dress in ('plain', 'frozen', 'after-mid-eot', 'frozen-after-mid-eot'):
+                a = genfile.rand_meta_attrs(rng, t)
+                if t in rmeta.TEXT_TYPES:
+                    name = rmeta.SPECS[t][1][0]
+                    a = {name: rng.choice(('caf\xe9 \xfc', 'plain', '', '\xa3\xa5' * 70))}
+                    try:
+                        if a[name].encode(cs).decode(cs) != a[name]:      # (shift_jis: the yen sign comes back as a backslash)
+                            raise UnicodeError
+                    except UnicodeError:
+                        a = {name: 'ascii only'}
+                    if cs == 'shift_jis' and rng.random() < 0.5:
+                        a = {name: '\u3042\u30a2'}
+                if t == 'sequencer_specific':
+                    a = {'data': tuple(a['data'])}
+                case = {'kind': 'through-file', 'charset': cs, 'type': t, 'attrs': {k: repr(v) for k, v in a.items()}, 'dress': dress}
+                try:
+                    m = MetaMessage(t, time=3, **a)
+                    inside = freeze_message(m) if dress.startswith('frozen') else m
+                    head = [mido.Message('note_on', note=1, time=2)]
+                    if dress.endswith('after-mid-eot'):
+                        head.append(MetaMessage('end_of_track', time=5))
+                    mid = mido.MidiFile(charset=cs)
+                    mid.tracks.append(mido.MidiTrack(head + [inside, MetaMessage('end_of_track', time=1)]))
+                    buf = io.BytesIO()
+                    mid.save(file=buf)
+                    back = mido.MidiFile(file=io.BytesIO(buf.getvalue()), charset=cs)
+                    want = m.copy(time=8 if dress.endswith('after-mid-eot') else 3)
+                    got = back.tracks[0][1] if len(back.tracks[0]) == 3 else None
+                    ctx.check('track reader == message', got == want and type(got) is MetaMessage and inside == m,
+                              f'through-file:{dress}:{cs}', case, lambda: {'got': repr(got)[:160], 'want': repr(want)[:160]})
+                    # and the bytes in the file are the reference encoding under that charset
+                    ref = [0xFF, rmeta.TYPE_BYTE[t]] + rmeta.vlq(len(rmeta.payload(t, a, cs))) + list(rmeta.payload(t, a, cs))
+                    ctx.check('bytes == FF type VLQ(len) payload (reference)', bytes(ref) in buf.getvalue(),
+                              f'through-file-bytes:{dress}:{cs}', case, None)
+                except Exception as exc:
+                    ctx.fail('track reader == message', f'through-file:{type(exc).__name__}:{dress}', case, f'{type(exc).__name__}: {exc}')
+                n += 1
+    return n
+
+
 def sequencer_specific(ctx):
     """F12 (known finding): data is stored as given, neither validated nor normalised."""
     n = 0
@@ -467,6 +522,7 @@ def run(ctx):
     if sh == 2 % N:
         n += vlq_helper_cases(ctx)
         n += other_charsets(ctx)
+        n += through_file_cases(ctx)
         n += unknown_meta(ctx, rng)
         n += malformed_from_bytes(ctx)
         # unknown type names: logged only
@@ -667,6 +723,8 @@ def replay(ctx, case):
         rejections(ctx)
     elif k == 'history':
         history(ctx, case['seed'])
+    elif k == 'through-file':
+        through_file_cases(ctx)
     elif k == 'charset':
         other_charsets(ctx)
     elif k == 'seqspec':
